@@ -123,6 +123,9 @@ type FakeConn struct {
 	// otherwise Read blocks until Close (and then returns ErrClosed) or until more is fed
 	In    [][]byte
 	InErr error
+	// InErrOnce: the error is returned by one Read only, later Reads block (a custom
+	// transport is handed to a new channel again and again: keeps the scenario finite)
+	InErrOnce bool
 
 	// write side
 	Written      [][]byte
@@ -183,7 +186,11 @@ func (c *FakeConn) Read(p []byte) (int, error) {
 		return n, nil
 	}
 	if c.InErr != nil {
-		return 0, c.InErr
+		err := c.InErr
+		if c.InErrOnce {
+			c.InErr = nil
+		}
+		return 0, err
 	}
 	return 0, ErrTimeout
 }
